@@ -378,4 +378,12 @@ def run(ctx: Ctx, repo: Repo, tier: str) -> None:
     ctx.attempt(rule_async, ctx, repo)
     ctx.attempt(rule_modules, ctx, repo)
     ctx.attempt(rule_typed_dict_fields, ctx, repo)
+    # "the receiver parameter of a method is never annotated": the annotation decision table of update_signature_args
+    # (strategy x annotated x traced x receiver), decided in full under C13 as R-C13.1
+    from . import c13 as _c13
+    ctx.attempt(_c13.rule_args, ctx, repo)
+    # "each traced function appears": a trace the tracer logged is kept by the store logger whatever was observed for the
+    # call (a parameterless function that always raised is a traced function all the same) - R-C17.2
+    from . import c17 as _c17
+    ctx.attempt(_c17.rule_main_gate, ctx, repo)
     ctx.settle()
